@@ -16,6 +16,7 @@ import Mahotas.Proofs.C08TiesDilate
 import Mahotas.Proofs.C08TiesHitmiss
 import Mahotas.Proofs.C08Fast
 import Mahotas.Proofs.C08Rank
+import Mahotas.Proofs.C08ViewsA
 import Mahotas.Properties.C01
 import Mahotas.Properties.C04
 import Mahotas.Properties.C06
@@ -971,3 +972,159 @@ example : pyErodeView dtBool memI vI memB vB = fastBinaryView true memI vI memB 
     (fastBinaryView false memI vI memE vE).toList = [some 1, some 0, some 0, some 1, some 1, some 0] := by
   decide +kernel
 end Mahotas.C08.Example
+
+
+/-! ## Round 4 — more view kernels = the owners' logical models: the `at(pos)` kernels of `_morph.cpp`
+(`regmax`/`regmin`, `close_holes`, `majority_filter`) -/
+
+/-- **regmax / regmin over views = `C14.regModel`.** `py_regminmax` (zero fill, `locmin_max`, then
+`remove_fake_regmin_max`, which reads the image as `f.at(pos)` and `Bc` through `neighbours(Bc)`) on ANY views of the
+image and the structuring element (strides of any sign and order, offsets) returns, in every cell, the value of the
+owner's model on the logical arrays — the model `c14 kind=reg` runs. `….map some`: no cell is left unwritten (F15). -/
+theorem C08_regView_eq_C14 (isMin : Bool) (mA : Int → Int) (vA : View) (mB : Int → Int) (vB : View)
+    (h : FilterArgs vA vB true) :
+    regView isMin mA vA mB vB =
+      (C14.regModel isMin (toImg mA vA) (C14.neighbours vB.shape (logical mB vB).toArray)).map some :=
+  regView_eq_C14 isMin mA vA mB vB h
+
+/-- **regmax / regmin are layout-free**: two (image, `Bc`) pairs of views with the same logical content give the same
+output array. -/
+theorem C08_regmin_max_layout_free (isMin : Bool) (mA₁ mA₂ mB₁ mB₂ : Int → Int) (vA₁ vA₂ vB₁ vB₂ : View)
+    (h₁ : FilterArgs vA₁ vB₁ true) (h₂ : FilterArgs vA₂ vB₂ true)
+    (hA : SameLogical mA₁ vA₁ mA₂ vA₂) (hB : SameLogical mB₁ vB₁ mB₂ vB₂) :
+    regView isMin mA₁ vA₁ mB₁ vB₁ = regView isMin mA₂ vA₂ mB₂ vB₂ := by
+  rw [regView_eq_C14 isMin mA₁ vA₁ mB₁ vB₁ h₁, regView_eq_C14 isMin mA₂ vA₂ mB₂ vB₂ h₂, hA.toImg_eq]
+  obtain ⟨hl, hs⟩ := logical_eq_of_toImg _ _ _ _ hB.toImg_eq
+  rw [hl, hs]
+
+/-- **regmax / regmin are correct for any memory layout** (composition with `C14_regional_eq_spec`): with a symmetric,
+star-shaped neighbourhood (cross, box) the cell of a pixel `q` inside the image is `some true` exactly when every pixel
+of the plateau of `q` has no strictly better neighbour inside the image — whatever the strides of image and `Bc`. -/
+theorem C08_regmin_max_view_correct (isMin : Bool) (mA : Int → Int) (vA : View) (mB : Int → Int) (vB : View)
+    (h : FilterArgs vA vB true)
+    (hn : C14.SymNb (toImg mA vA) (C14.neighbours vB.shape (logical mB vB).toArray))
+    (hstar : C14.StarShaped (C14.neighbours vB.shape (logical mB vB).toArray))
+    (q : List Int) (hq : inside vA.shape q = true) :
+    (regView isMin mA vA mB vB).getD (ravelI vA.shape q) none = some true ↔
+      C14.Regional isMin (toImg mA vA) (C14.neighbours vB.shape (logical mB vB).toArray) q := by
+  rw [regView_eq_C14 isMin mA vA mB vB h]
+  have hsp := C14_regional_eq_spec isMin (toImg mA vA) _ hn hstar q hq
+  have hsh : (toImg mA vA).shape = vA.shape := rfl
+  rw [hsh] at hsp
+  rw [← hsp]
+  generalize C14.regModel isMin (toImg mA vA) (C14.neighbours vB.shape (logical mB vB).toArray) = r
+  generalize ravelI vA.shape q = i
+  simp only [Array.getD_eq_getD_getElem?, Array.getElem?_map]
+  cases r[i]? <;> simp
+
+/-- **close_holes over views = `C14.closeHoles`**: the reference image is read as `ref.at(pos)` only, so for ANY strides
+the kernel returns the owner's model of the logical image (the model `c14 kind=holes` runs); every cell is written
+(`std::fill_n` on the fresh output, then the negation loop). -/
+theorem C08_closeHolesView_eq_C14 (mR : Int → Int) (vR : View) (mB : Int → Int) (vB : View) (wfB : vB.WF) :
+    closeHolesView mR vR mB vB =
+      (C14.closeHoles (toImg mR vR) (C14.neighbours vB.shape (logical mB vB).toArray)).map some :=
+  closeHolesView_eq_C14 mR vR mB vB wfB
+
+/-- **close_holes is layout-free.** -/
+theorem C08_close_holes_layout_free (mR₁ mR₂ mB₁ mB₂ : Int → Int) (vR₁ vR₂ vB₁ vB₂ : View)
+    (wf₁ : vB₁.WF) (wf₂ : vB₂.WF)
+    (hR : SameLogical mR₁ vR₁ mR₂ vR₂) (hB : SameLogical mB₁ vB₁ mB₂ vB₂) :
+    closeHolesView mR₁ vR₁ mB₁ vB₁ = closeHolesView mR₂ vR₂ mB₂ vB₂ := by
+  rw [closeHolesView_eq_C14 mR₁ vR₁ mB₁ vB₁ wf₁, closeHolesView_eq_C14 mR₂ vR₂ mB₂ vB₂ wf₂, hR.toImg_eq]
+  obtain ⟨hl, hs⟩ := logical_eq_of_toImg _ _ _ _ hB.toImg_eq
+  rw [hl, hs]
+
+/-- **close_holes is correct for any memory layout** (composition with `C14_close_holes_eq_spec`): the cell of a pixel
+`q` inside the image is `some true` exactly when `q` is not connected to the border through background pixels. -/
+theorem C08_close_holes_view_correct (mR : Int → Int) (vR : View) (mB : Int → Int) (vB : View) (wfB : vB.WF)
+    (q : List Int) (hq : inside vR.shape q = true) :
+    (closeHolesView mR vR mB vB).getD (ravelI vR.shape q) none = some true ↔
+      ¬ C14.BorderConn (toImg mR vR) (C14.neighbours vB.shape (logical mB vB).toArray) q := by
+  rw [closeHolesView_eq_C14 mR vR mB vB wfB]
+  have hwf : (toImg mR vR).data.size = shapeSize (toImg mR vR).shape := by
+    simp [toImg, logical_length]
+  have hsp := C14_close_holes_eq_spec (toImg mR vR) (C14.neighbours vB.shape (logical mB vB).toArray) hwf q hq
+  have hsh : (toImg mR vR).shape = vR.shape := rfl
+  rw [hsh] at hsp
+  rw [← hsp]
+  generalize C14.closeHoles (toImg mR vR) (C14.neighbours vB.shape (logical mB vB).toArray) = r
+  generalize ravelI vR.shape q = i
+  simp only [Array.getD_eq_getD_getElem?, Array.getElem?_map]
+  cases r[i]? <;> simp
+
+/-- **majority_filter over views = the same loops on the logical image**, for ANY strides of the input
+(`input.at(y+dy, x+dx)` = `PyArray_GETPTR2`); window size, the `!= rows-N` loop bounds and the threshold `N*N/2` as in the
+C++. -/
+theorem C08_majorityView_eq_logical (n : Nat) (mA : Int → Int) (vA : View) :
+    majorityView n mA vA = majorityLogical n (toImg mA vA) :=
+  majorityView_eq_logical n mA vA
+
+/-- **majority_filter is layout-free.** -/
+theorem C08_majority_filter_layout_free (n : Nat) (mA₁ mA₂ : Int → Int) (vA₁ vA₂ : View)
+    (hA : SameLogical mA₁ vA₁ mA₂ vA₂) :
+    majorityView n mA₁ vA₁ = majorityView n mA₂ vA₂ := by
+  rw [majorityView_eq_logical, majorityView_eq_logical, hA.toImg_eq]
+
+/-- **F15 for regmax/regmin, close_holes, majority_filter**: every cell of their outputs is written, for every layout:
+the first two are `….map some` of a total model, the third starts from the zero fill and only ever stores `true`. -/
+theorem C08_defined_everywhere_morph_at_kernels (isMin : Bool) (n : Nat) (mA : Int → Int) (vA : View)
+    (mB : Int → Int) (vB : View) (h : FilterArgs vA vB true) (rows cols : Nat) (hs : vA.shape = [rows, cols]) :
+    (∀ i, i < (regView isMin mA vA mB vB).size → ((regView isMin mA vA mB vB).getD i none).isSome = true) ∧
+    (∀ i, i < (closeHolesView mA vA mB vB).size → ((closeHolesView mA vA mB vB).getD i none).isSome = true) ∧
+    (majorityView n mA vA).size = rows * cols ∧
+    (∀ i, i < rows * cols → ((majorityView n mA vA).getD i none).isSome = true) := by
+  refine ⟨?_, ?_, ?_, ?_⟩
+  · rw [regView_eq_C14 isMin mA vA mB vB h]
+    intro i hi
+    simp only [Array.size_map] at hi
+    simp [Array.getD_eq_getD_getElem?, hi]
+  · rw [closeHolesView_eq_C14 mA vA mB vB h.wfF]
+    intro i hi
+    simp only [Array.size_map] at hi
+    simp [Array.getD_eq_getD_getElem?, hi]
+  · unfold majorityView; rw [hs]; exact (majorityLoops_defined rows cols n _).1
+  · unfold majorityView; rw [hs]; exact (majorityLoops_defined rows cols n _).2
+
+namespace Mahotas.C08.Example4
+open Mahotas.C08.Example
+/-- a 3×3 image with one interior plateau maximum, stored in Fortran order and (second copy) reversed with a gap -/
+def memR : Int → Int := fun a => [1, 1, 1, 1, 5, 1, 1, 1, 2].getD a.toNat 0
+def vRF : View := { base := 0, shape := [3, 3], strides := [1, 3] }
+def memR2 : Int → Int := fun a => [2, 0, 1, 0, 1, 0, 1, 0, 5, 0, 1, 0, 1, 0, 1, 0, 1].getD a.toNat 0
+def vRN : View := { base := 16, shape := [3, 3], strides := [-6, -2] }
+def memX : Int → Int := fun a => [0, 1, 0, 1, 0, 1, 0, 1, 0].getD a.toNat 0     -- the cross without its centre
+def vX : View := { base := 0, shape := [3, 3], strides := [3, 1], carray := true }
+
+theorem faR : FilterArgs vRF vX true :=
+  ⟨⟨rfl, by decide⟩, ⟨rfl, by decide⟩, by (unfold View.Pos; decide), by (unfold View.Pos; decide), rfl, fun h => by cases h⟩
+theorem faR2 : FilterArgs vRN vX true :=
+  ⟨⟨rfl, by decide⟩, ⟨rfl, by decide⟩, by (unfold View.Pos; decide), by (unfold View.Pos; decide), rfl, fun h => by cases h⟩
+
+example : SameLogical memR vRF memR2 vRN ∧ logical memR vRF = [1, 1, 1, 1, 5, 1, 1, 1, 2] ∧
+    regView false memR vRF memX vX = regView false memR2 vRN memX vX ∧
+    (regView false memR vRF memX vX).toList =
+      [some false, some false, some false, some false, some true, some false, some false, some false, some true] ∧
+    (locView false memR vRF memX vX).toList =
+      [some true, some false, some true, some false, some true, some false, some true, some false, some true] := by
+  refine ⟨⟨rfl, by decide⟩, by decide, ?_, by decide +kernel, by decide +kernel⟩
+  exact C08_regmin_max_layout_free false memR memR2 memX memX vRF vRN vX vX faR faR2 ⟨rfl, by decide⟩ ⟨rfl, fun _ _ => rfl⟩
+
+/-- a ring with a hole, Fortran order: the hole is closed; majority filter of a 4×4 view with negative strides -/
+def memO : Int → Int := fun a => [0, 0, 0, 0, 0, 0, 1, 1, 1, 0, 0, 1, 0, 1, 0, 0, 1, 1, 1, 0, 0, 0, 0, 0, 0].getD a.toNat 0
+def vO : View := { base := 0, shape := [5, 5], strides := [1, 5] }
+example : (closeHolesView memO vO memX vX).toList.map (fun o => o.getD false) =
+    [false, false, false, false, false, false, true, true, true, false, false, true, true, true, false,
+     false, true, true, true, false, false, false, false, false, false] := by decide +kernel
+
+def memJ : Int → Int := fun a => [1, 1, 1, 0, 1, 1, 0, 0, 1, 0, 0, 0, 0, 0, 0, 0].getD a.toNat 0
+def vJ : View := { base := 0, shape := [4, 4], strides := [1, 4] }                -- Fortran order
+def vJn : View := { base := 15, shape := [4, 4], strides := [-4, -1] }             -- both axes reversed
+example : logical memJ vJ = [1, 1, 1, 0, 1, 1, 0, 0, 1, 0, 0, 0, 0, 0, 0, 0] ∧
+    logical memJ vJn = [0, 0, 0, 0, 0, 0, 0, 1, 0, 0, 1, 1, 0, 1, 1, 1] ∧
+    (majorityView 2 memJ vJ).toList.map (fun o => o.getD false) =
+      [false, false, false, false, false, true, true, false, false, true, false, false, false, false, false, false] ∧
+    (majorityView 3 memJ vJ).toList.map (fun o => o.getD false) =
+      [false, false, false, false, false, true, false, false, false, false, false, false, false, false, false, false] ∧
+    (majorityView 3 memJ vJn).toList.map (fun o => o.getD false) = List.replicate 16 false := by
+  decide +kernel
+end Mahotas.C08.Example4
